@@ -8,6 +8,7 @@ import (
 	"errors"
 	"fmt"
 	"io/fs"
+	"net"
 	"os"
 	"path/filepath"
 	"strings"
@@ -81,10 +82,67 @@ func certMain(args []string) {
 		cf := filepath.Join(dir, "cert.txtar")
 		var complete []byte /* the complete file, once created */
 		var steps []map[string]any
+		type run struct {
+			l       sstls.Listener
+			started string /* key the run served when it started */
+		}
+		var runs []run /* runs that are still up (listening on the cache's key pair) */
+		defer func() {
+			for _, r := range runs {
+				r.l.Close()
+			}
+		}()
+		handshake := func(l sstls.Listener) string {
+			c, err := tls.DialWithDialer(&net.Dialer{Timeout: 3 * time.Second}, "tcp", l.Addr().String(), &tls.Config{InsecureSkipVerify: true})
+			if nil != err {
+				return "dial:" + err.Error()
+			}
+			defer c.Close()
+			cs := c.ConnectionState()
+			if 0 == len(cs.PeerCertificates) {
+				return "nocert"
+			}
+			h := sha256.Sum256(cs.PeerCertificates[0].RawSubjectPublicKeyInfo)
+			return hx(h[:8])
+		}
 		for _, o := range m["ops"].([]any) {
 			op := o.(map[string]any)
 			st := map[string]any{}
 			switch op["op"].(string) {
+			case "listen": /* a run that stays up: sstls.Listen on the cache, as the program does */
+				l, err := sstls.Listen("tcp", "127.0.0.1:0", "", 0, cf)
+				if nil != err {
+					st["listen"] = "err:" + err.Error()
+				} else {
+					go func() { /* the run serves: accept, shake hands, hang up */
+						for {
+							c, err := l.Accept()
+							if nil != err {
+								return
+							}
+							go func() {
+								if tc, ok := c.(*tls.Conn); ok {
+									tc.SetDeadline(time.Now().Add(3 * time.Second))
+									tc.Handshake()
+								}
+								c.Close()
+							}()
+						}
+					}()
+					k := handshake(l)
+					runs = append(runs, run{l: l, started: k})
+					st["listen"] = k
+					if nil == complete {
+						complete, _ = os.ReadFile(cf)
+					}
+				}
+			case "probe": /* what does every run that is still up present NOW? */
+				var started, served []string
+				for _, r := range runs {
+					started = append(started, r.started)
+					served = append(served, handshake(r.l))
+				}
+				st["started"], st["served"] = started, served
 			case "delete":
 				os.Remove(cf)
 			case "prefix":
